@@ -84,8 +84,10 @@ impl BodyWriter {
                 let mut input_used = 0;
 
                 if input.is_empty() {
-                    self.finish(w);
-                    self.ended = true;
+                    // The body is ended only once the terminator is written.
+                    if self.finish(w) {
+                        self.ended = true;
+                    }
                 } else {
                     // The chunk size might be smaller than the entire input, in which case
                     // we continue to send chunks frome the same input.
